@@ -28,6 +28,7 @@ type datadogCFRequestDec struct {
 func (d *datadogCFRequestDec) Decode() error {
 	scanner := bufio.NewScanner(d.ctx.bodyReader)
 	scanner.Split(bufio.ScanLines)
+	scanner.Buffer(make([]byte, 64*1024), 256*1024*1024)
 
 	d.DDSource = d.ctx.ctxMap["ddsource"]
 	for scanner.Scan() {
@@ -45,6 +46,9 @@ func (d *datadogCFRequestDec) Decode() error {
 		if err != nil {
 			return err
 		}
+	}
+	if err := scanner.Err(); err != nil {
+		return customErrors.NewUnmarshalError(err)
 	}
 	return nil
 }
